@@ -26,10 +26,10 @@ CONSTANTS Sizes,       \* sizes a sent Message may have
           IDSPACE,     \* message ids are counted modulo IDSPACE
           FirstID,     \* id of every sender's first Message (puts the wrap-around inside short behaviours)
           OutModes,    \* how a DoOutput call may go: subset of {"all", "one", "hold"}
-          Deviations,  \* named deviations:
-                       \*   "F31"   known finding, modelled as the code is: a fragment of an over-limit Message ENDS the parse of its
-                       \*           packet (`else break;`), so Messages that fit but follow it in the same packet are lost with it;
-                       \*           without "F31" the fragment is skipped and the parse goes on (the drafted repair)
+          Deviations,  \* named deviations from the code as it is (all off by default; each makes an invariant fail: vacuity guards):
+                       \*   "F31"   the code as it WAS before repair 56cd5f9: a fragment of an over-limit Message ENDS the parse of its packet
+                       \*           (`else break;`), so Messages that fit but follow it in the same packet are lost with it;
+                       \*           without "F31" (the code now) the fragment is skipped and the parse goes on
                        \*   "noid"  acceptance test without the message-id comparison      (spec mutant, shows NeverDeliversUnsent can fail)
                        \*   "nooff" acceptance test without the offset comparison          (spec mutant)
                        \*   "nokey" one ReceiveState shared by all source addresses        (spec mutant)
@@ -184,8 +184,9 @@ AbsRefines == [][AbsStep]_<<sent, delivered>>
 \* "keep packet size smaller than the physical layer's MTU" (class comment), and no packet without payload room
 WithinMTU == \A s \in Senders : \A k \in 1..Len(pk[s]) : PktSize(pk[s][k]) <= mtu /\ pk[s][k] # <<>>
 
-\* clause 2: which Messages are due on a perfect network: those within the receiver's size limit - except, while known
-\* finding F31 is open, those with a fragment that FOLLOWS a fragment of an over-limit Message in the same packet.
+\* clause 2: which Messages are due on a perfect network: those within the receiver's size limit (DueStrict, the property
+\* as stated).  With the deviation "F31" the Messages with a fragment that FOLLOWS a fragment of an over-limit Message in
+\* the same packet are not due (Due): that is what the code did before the repair.
 Oversize(s, n)   == sent[s][n] > MaxIn
 Collateral(s, n) == \E k \in 1..Len(pk[s]) : \E i, j \in 1..Len(pk[s][k]) : i < j /\ pk[s][k][i].tot > MaxIn /\ pk[s][k][j].n = n
 DueStrict == [s \in Senders |-> {n \in 1..Len(sent[s]) : ~Oversize(s, n)}]
@@ -198,7 +199,7 @@ Done   == AllOut /\ (\A s \in Senders : Len(sent[s]) = MaxMsgs /\ \A k \in 1..Le
 
 PerfectInOrder           == (Faults = {}) => InOrderSoFar(Due)
 PerfectExactlyOnce       == (Faults = {} /\ Quiet) => ExactlyOnceInOrder(Due)
-PerfectExactlyOnceStrict == (Faults = {} /\ Quiet) => ExactlyOnceInOrder(DueStrict)     \* the property as stated: fails while F31 is open
+PerfectExactlyOnceStrict == (Faults = {} /\ Quiet) => ExactlyOnceInOrder(DueStrict)     \* the property as stated: fails with the deviation "F31"
 \* without duplication nothing is handed over twice (not claimed by the property text; checked because the design intends it)
 RECURSIVE NoRepeat(_)
 NoRepeat(q) == IF q = <<>> THEN TRUE ELSE (\A i \in 1..Len(Tail(q)) : Tail(q)[i] # Head(q) \/ Head(q).size = 0) /\ NoRepeat(Tail(q))
